@@ -1620,3 +1620,45 @@ B('h6_subclass_appends_by_position', ['C15'], 'R15.j',
   (STATS, "        self.last_hit = hit.start_time\n", "        self.last_hit = hit.start_time\n        self.slowest[len(self.slowest)] = hit.duration\n"))
 B('h6_sample_index_bound_stale_after_truncation', ['C15'], 'R15.j',
   (STATS, _IDX_STORE, "        idx = fast_randint(0, self._total_count)\n        if idx < len(self._data):\n            self._data.pop()\n            self._data[idx] = val\n        return\n"))
+
+# ---- seventh pass: the report assembled by a helper that is handed the middleware (its parameter followed to every call site);
+#      the per-route summary found by its role (the function given one route's table of reservoirs), not by its name ----------------
+_ST_GSD_BODY = '''    stats_mw = _get_stats_mw(_application)
+    rt_hits = stats_mw.route_hits
+    utcnow = datetime.datetime.utcnow().isoformat()
+    return {'route_stats': dict([(rt.pattern, _get_route_stats(rh)) for rt, rh
+                                 in rt_hits.items() if rh]),
+            'start_time_utc': stats_mw.last_reset.isoformat(),
+            'cur_time_utc': utcnow}
+'''
+_ST_GSD_DEF = "def get_stats_dict(_application):\n"
+_ST_ASSEMBLE = '''def _assemble_report(collector):
+    table = collector.route_hits
+    utcnow = datetime.datetime.utcnow().isoformat()
+    return {'route_stats': dict([(rt.pattern, _get_route_stats(rh)) for rt, rh
+                                 in table.items() if rh]),
+            'start_time_utc': collector.last_reset.isoformat(),
+            'cur_time_utc': utcnow}
+
+
+'''
+_ST_GR_HEAD = "    ret = get_stats_dict(_application)\n    stats_mw = _get_stats_mw(_application)\n"
+_ST_GR_HEAD_H = "    stats_mw = _get_stats_mw(_application)\n    ret = _assemble_report(stats_mw)\n"
+T('h7_report_helper_takes_the_middleware', ['C19'],
+  (STATS, _ST_GSD_DEF, _ST_ASSEMBLE + _ST_GSD_DEF), (STATS, _ST_GSD_BODY, "    return _assemble_report(_get_stats_mw(_application))\n"),
+  (STATS, _ST_GR_HEAD, _ST_GR_HEAD_H))
+B('h7_report_helper_given_a_fresh_middleware', ['C19'], 'R19.d',
+  (STATS, _ST_GSD_DEF, _ST_ASSEMBLE + _ST_GSD_DEF), (STATS, _ST_GSD_BODY, "    return _assemble_report(StatsMiddleware())\n"),
+  (STATS, _ST_GR_HEAD, _ST_GR_HEAD_H))
+B('h7_report_helper_given_a_copy_at_one_site', ['C19'], 'R19.d',
+  (STATS, _ST_GSD_DEF, _ST_ASSEMBLE + _ST_GSD_DEF), (STATS, _ST_GSD_BODY, "    return _assemble_report(_get_stats_mw(_application))\n"),
+  (STATS, _ST_GR_HEAD, "    stats_mw = _get_stats_mw(_application)\n    ret = _assemble_report(copy.copy(stats_mw))\n"),
+  (STATS, 'import datetime\n', 'import datetime\nimport copy\n'))
+_ST_COUNT_LINE = "        desc_dict['count'] = hits.total_count  # need to account for reservoir count\n"
+T('h7_route_summary_renamed', ['C19'],
+  (STATS, "def _get_route_stats(rt_hits):\n", "def _describe_statuses(rt_hits):\n"),
+  (STATS, "(rt.pattern, _get_route_stats(rh))", "(rt.pattern, _describe_statuses(rh))"))
+B('h7_route_summary_renamed_sample_size', ['C19'], 'R19.b',
+  (STATS, "def _get_route_stats(rt_hits):\n", "def _describe_statuses(rt_hits):\n"),
+  (STATS, "(rt.pattern, _get_route_stats(rh))", "(rt.pattern, _describe_statuses(rh))"),
+  (STATS, _ST_COUNT_LINE, "        desc_dict['count'] = len(durs)\n"))
